@@ -244,8 +244,8 @@ type env struct {
 	Other starlarkproto.EnumDescriptor
 	U     starlarkproto.MessageDescriptor
 	S     starlarkproto.FileDescriptor // the file: its attributes are the extension fields
-	pre   starlark.StringDict // predeclared names of every case program
-	help  starlark.StringDict // compiled helper functions for S
+	pre   starlark.StringDict          // predeclared names of every case program
+	help  starlark.StringDict          // compiled helper functions for S
 	fopts *syntax.FileOptions
 }
 
